@@ -155,7 +155,7 @@ func (g *generator) layoutDoc(items []item, pad, rot, minSize int, fillers int, 
 	}
 	type placed struct{ num, start int }
 	var offs []placed
-	num := 0
+	num := g.numBase
 	counter := 0
 	put := func(text string, want string, kind string) *rec {
 		num++
@@ -222,6 +222,9 @@ func (g *generator) layoutDoc(items []item, pad, rot, minSize int, fillers int, 
 		panic("no EOL before xref")
 	}
 	xpos := buf.Len()
+	if xrefStream && g.numBase > 0 {
+		panic("numBase needs a classic table")
+	}
 	if xrefStream {
 		// the cross-reference data as an (unfiltered) stream, four bytes per entry
 		xnum := num + 1
@@ -240,7 +243,11 @@ func (g *generator) layoutDoc(items []item, pad, rot, minSize int, fillers int, 
 		d.recs = append(d.recs, &rec{ref: pdf.NewReference(uint32(xnum), 0), start: xpos, end: buf.Len(), val: want})
 		d.trailers = []trailerInfo{{completeAt: buf.Len(), rev: 0}}
 	} else {
-		fmt.Fprintf(&buf, "xref\n0 %d\n0000000000 65535 f \n", num+1)
+		if g.numBase > 0 {
+			fmt.Fprintf(&buf, "xref\n0 1\n0000000000 65535 f \n%d %d\n", g.numBase+1, num-g.numBase)
+		} else {
+			fmt.Fprintf(&buf, "xref\n0 %d\n0000000000 65535 f \n", num+1)
+		}
 		for _, o := range offs {
 			fmt.Fprintf(&buf, "%010d 00000 n \n", o.start)
 		}
